@@ -46,6 +46,9 @@ CellOK(ctx, d, path, k) ==
          [] ctx = "read"    -> k <= n + 1 /\ ~(Kind(core) = "sptr" /\ k # 1)
          [] ctx = "arg"     -> k <= n + 1 /\ ~(Kind(core) = "sptr" /\ k # 1)
          [] ctx = "argmiss" -> k <= n /\ Kind(core) \notin {"sptr", "slice", "view"}
+         [] ctx = "argxp"   -> /\ Kind(core) \in {"arr", "slice", "sptr"} /\ n = (IF Kind(core) = "sptr" THEN 1 ELSE 0)
+                               /\ k <= 1 /\ ~(Kind(core) = "sptr" /\ k # 1)
+                               /\ IsPrim(ElemOf(core))
 
 YContexts == {"block", "loop", "then", "else", "elif_then", "elif_else", "elif2", "label"}
 XContexts == {"paren", "elem", "member", "nested", "ret", "cond"}
@@ -54,7 +57,7 @@ Contexts == {<<"direct", "top">>} \cup {<<"direct", y>> : y \in YContexts} \cup 
 
 Cells == {[kind |-> b[1], d |-> b[2], path |-> p, k |-> k, ctx |-> ctx, x |-> xy[1], y |-> xy[2]] :
               b \in Bases, p \in UNION {PathsFrom(x[2], MaxSteps) : x \in Bases}, k \in 0..3,
-              ctx \in {"assign", "read", "arg", "argmiss"}, xy \in Contexts}
+              ctx \in {"assign", "read", "arg", "argmiss", "argxp"}, xy \in Contexts}
 
 \* contexts are crossed with a reduced set of cells: statement contexts with paths of at most two steps,
 \* expression contexts with address-of arguments of a declarable pointer type (not the address of a view)
@@ -62,7 +65,8 @@ ContextOK(cl) ==
     LET F == Final(cl.d, cl.path)
         core == StripPtr(F)
         et == ExpectType(F, cl.k)
-    IN /\ (cl.y # "top" => Len(cl.path) <= 2)
+    IN /\ (cl.ctx = "argxp" => cl.x = "direct")
+       /\ (cl.y # "top" => Len(cl.path) <= 2)
        /\ (cl.x # "direct" => /\ cl.ctx = "arg" /\ cl.k >= 1 /\ Len(cl.path) <= 2
                                /\ Kind(et) = "ptr" /\ Declarable(et)
                                /\ Kind(core) \notin {"view", "slice", "sptr"})
